@@ -39,6 +39,10 @@ package interp
 //@   ensures function-pass-keeps-line-breakpoint: !(len(setup.lines) > 0) ==> lineFlag(n) == old(lineFlag(n))
 //@   ensures request-without-function-breakpoints-keeps-them: !(len(setup.funcs) > 0) ==> callFlag(n.start) == old(callFlag(n.start))
 //@   ensures request-without-line-breakpoints-keeps-them: !(len(setup.lines) > 0) ==> lineFlag(n.start) == old(lineFlag(n.start))
+//@   -- the walk never stops short: the nodes below one that received a breakpoint (the body of a function
+//@   -- literal that starts on the line, the lines of a multi-line call) are still reset and still get theirs
+//@   ensures the-whole-tree-is-visited: cont
+//@   ensures [local:pos] a-stale-line-breakpoint-is-reset: !has(setup.lines, pos.Line) ==> !lineFlag(n)
 //@   canary lineFlag(n) == old(lineFlag(n))
 
 // The per-node stop decision of the debugger (called by runCfg before every node when a debugger is
